@@ -429,6 +429,33 @@ func runC09(c *Ctx) {
 		if n == 0 {
 			c.ob("C09-R5", interpPkg+"."+name+"#awaits-futures", f.Pos(), false, name+" never awaits its futures in a goroutine")
 		}
+		// the outcome is published before the losers are cancelled: cancelling wakes the losers' own goroutines,
+		// and a woken loser that settles the result first makes the combinator report "future cancelled" although
+		// exactly one future completed - every Cancel in the combinator's goroutines comes after the result was
+		// settled in that goroutine, or after a receive from the result's Done channel
+		k := 0
+		for _, cl := range innerClosures(f) {
+			eachInstr(cl, func(_ *ssa.BasicBlock, _ int, ins ssa.Instruction) {
+				if !isCallTo(ins, interpPath+".Future.Cancel") {
+					return
+				}
+				k++
+				settled := func(x ssa.Instruction) bool {
+					if isCallTo(x, interpPath+".Future.Resolve", interpPath+".Future.Reject") {
+						return true
+					}
+					if u, ok := x.(*ssa.UnOp); ok && u.Op == token.ARROW {
+						if cl2, ok := u.X.(*ssa.Call); ok && callName(cl2) == interpPath+".Future.Done" {
+							return true
+						}
+					}
+					return false
+				}
+				q := &pathQuery{fn: cl, target: func(x ssa.Instruction) bool { return x == ins }, stop: settled}
+				hit, path := q.fromEntry()
+				c.ob("C09-R5", interpPkg+"."+name+"#losers-cancelled-only-after-the-outcome-is-published-"+itoa(k), ins.Pos(), hit == nil, name+" cancels the other futures before it has settled its own result: Cancel rejects the losers and wakes their goroutines, one of which can reach result.Reject(\"future cancelled\") before the winner's value is published", c.blockPath(path)...)
+			})
+		}
 	}
 	if anyF := c.fn(interpPkg, "Any"); anyF != nil {
 		mu := localVarNamed(anyF, isSyncMutex)
